@@ -262,9 +262,32 @@ func runC14(c *vlib.Check) {
 	if !thorough {
 		rsaSpecs = rsaSpecs[:4]
 	}
-	for _, rs := range rsaSpecs {
+	// every RSA key is handed over twice: as crypto/rsa generates or parses it (CRT values precomputed) and as a program
+	// assembles it from N, E, D and the primes alone (Precomputed left at its zero value: the optional CRT parts are absent)
+	type rsaSpec = struct {
+		bits       int
+		topP, topQ byte
+		e          int64
+	}
+	type rsaVariant struct {
+		rs   rsaSpec
+		bare bool
+	}
+	var rsaVariants []rsaVariant
+	for i, rs := range rsaSpecs {
+		rsaVariants = append(rsaVariants, rsaVariant{rs, false})
+		if i < 2 || thorough {
+			rsaVariants = append(rsaVariants, rsaVariant{rs, true})
+		}
+	}
+	for _, rv := range rsaVariants {
+		rs := rv.rs
 		k := rsaKey(rs.bits, rs.topP, rs.topQ, rs.e)
 		label := fmt.Sprintf("RSA-%d p0=%02X q0=%02X e=%d", rs.bits, rs.topP, rs.topQ, rs.e)
+		if rv.bare {
+			k = &rsa.PrivateKey{PublicKey: rsa.PublicKey{N: k.N, E: k.E}, D: k.D, Primes: []*big.Int{k.Primes[0], k.Primes[1]}}
+			label += " (CRT values not precomputed)"
+		}
 		for _, f := range []struct {
 			n string
 			f kmipclient.KeyFormat
